@@ -827,7 +827,9 @@ def get_fields_and_fragment_spreads(
     to field nodes and definitions) as well as a list of fragment spreads referenced
     via fragment spreads.
     """
-    cached = cached_fields_and_fragment_spreads.get(selection_set)
+    # AST nodes compare by value, so the cache is keyed by the identity of the
+    # selection set: an equal selection set elsewhere may have another parent type.
+    cached = cached_fields_and_fragment_spreads.get(id(selection_set))
     if not cached:
         node_and_defs: NodeAndDefCollection = {}
         fragment_spreads: dict[str, FragmentSpread] = {}
@@ -840,7 +842,7 @@ def get_fields_and_fragment_spreads(
             var_map,
         )
         cached = (node_and_defs, list(fragment_spreads.values()))
-        cached_fields_and_fragment_spreads[selection_set] = cached
+        cached_fields_and_fragment_spreads[id(selection_set)] = cached
     return cached
 
 
@@ -856,7 +858,7 @@ def get_referenced_fields_and_fragment_spreads(
     as a list of nested fragment spreads referenced via fragment spreads.
     """
     # Short-circuit building a type from the node if possible.
-    cached = cached_fields_and_fragment_spreads.get(fragment.selection_set)
+    cached = cached_fields_and_fragment_spreads.get(id(fragment.selection_set))
     if cached:
         return cached
 
